@@ -36,6 +36,7 @@ type fwdParams struct {
 	FaultFree        bool
 	HoldReplies      bool // backends hold every reply until the whole workload has been sent
 	LowestFree       bool // clients reuse the lowest free stream id
+	PreparedBatches  bool // batches consist mostly of (several distinct) prepared children
 	RichCQL          bool // statements from the CQL grammar generator (ground truth only for the non-idempotent class)
 	CheckTokens      bool // C02 oracle: the reply carries the token of the request on that stream
 }
@@ -284,8 +285,11 @@ func (f *fwd) sendOne(i int) {
 		n := 1 + ch.Choose("batchn", 3)
 		b := &message.Batch{Type: primitive.BatchTypeLogged, Consistency: cl}
 		idem := true
+		if f.p.PreparedBatches {
+			n = 2 + ch.Choose("batchn2", 3)
+		}
 		for j := 0; j < n; j++ {
-			if ch.Choose("batchchild", 2) == 0 {
+			if !(f.p.PreparedBatches && ch.Choose("allprep", 4) != 0) && ch.Choose("batchchild", 2) == 0 {
 				st := world.DrawMutation(ch, "'"+tok+"'", "ks.t")
 				if f.p.RichCQL && ch.Choose("richchild", 2) == 1 {
 					g := world.GenCQL(ch, tok, ch.Choose("richclass", 2) == 1)
